@@ -584,7 +584,7 @@ func (fc *FuncCtx) applyContract(st *State, fn *types.Func, c *FuncContract, rec
 	sc := &specCtx{names: names, old: nil, pkg: fn.Pkg(), callee: cc, binds: c.Binds}
 	// preconditions
 	for _, rq := range c.Requires {
-		if rq.Free || rq.Unproved {
+		if rq.Free || rq.Unproved || fc.inSpec {
 			continue
 		}
 		g := fc.evalSpecBool(st, rq.Expr, sc)
